@@ -80,7 +80,7 @@ def reg2 : Reg := Reg.ofTypes [("Int", .int), ("Float", .float)]
     single value wrapped into the list, python names as keys -/
 example :
     coerceValue reg 10 (.named "Rec")
-      (.obj [("e", .str "B" none none), ("kids", .obj [("v", .int 2147483647)])]) =
+      (.obj [("e", .str "B"), ("kids", .obj [("v", .int 2147483647)])]) =
     .ok (.dict [("val", .int 1), ("enum_val", .str "bee"),
                 ("children", .list [.dict [("val", .int 2147483647), ("enum_val", .int 10)]])]) := by rfl
 
@@ -89,7 +89,7 @@ example :
     (valueFromAst reg none 10 (.named "Rec")
       (.obj [("e", .enum "B"), ("kids", .obj [("v", .int 2147483647)])])).toOption =
     (coerceValue reg 10 (.named "Rec")
-      (.obj [("e", .str "B" none none), ("kids", .obj [("v", .int 2147483647)])])).toOption :=
+      (.obj [("e", .str "B"), ("kids", .obj [("v", .int 2147483647)])])).toOption :=
   literal_variable_equiv reg (fun n _ _ h _ => (no_custom h).elim) none 10 _ _ _
     (.obj (fs := recFields) rfl
       (.cons (fun f hf hn => by
@@ -138,13 +138,13 @@ example : coerceValue reg 3 (.named "Boolean") (.list [.int 1]) = .error .coerci
 example : valueFromAst reg none 3 (.nonNull (.named "Rec")) (.obj [("zzz", .int 1)]) = .error .coercion := by rfl
 
 /-- fix X2: non-finite floats are refused at Float on both routes; a finite one passes; `int(inf)` escapes from coerce_int -/
-example : coerceValue reg2 1 (.named "Float") (.float "inf" none .inf) = .error .coercion := by rfl
-example : coerceValue reg2 1 (.named "Float") (.str "nan" none (some ("nan", none, .nan))) = .error .coercion := by rfl
-example : valueFromAst reg2 none 1 (.named "Float") (.float "1e999" .inf) = .error .coercion := by rfl
-example : coerceValue reg2 1 (.named "Float") (.float "1.5" none .finite) = .ok (.float (.text "1.5")) := by rfl
-example : coerceValue reg2 1 (.named "Int") (.float "inf" none .inf) = .error .internal := by rfl
+example : coerceValue reg2 1 (.named "Float") (.float "inf") = .error .coercion := by rfl
+example : coerceValue reg2 1 (.named "Float") (.str "nan") = .error .coercion := by rfl
+example : valueFromAst reg2 none 1 (.named "Float") (.float "1e999") = .error .coercion := by rfl
+example : coerceValue reg2 1 (.named "Float") (.float "1.5") = .ok (.float (.text "1.5")) := by rfl
+example : coerceValue reg2 1 (.named "Int") (.float "inf") = .error .internal := by rfl
 /-- a collected CoercionError does not hide a later escaping exception (`_coerce_list_value` goes on) -/
-example : coerceValue reg2 2 (.list (.named "Int")) (.list [.str "x" none none, .float "inf" none .inf]) = .error .internal := by rfl
+example : coerceValue reg2 2 (.list (.named "Int")) (.list [.str "x", .float "inf"]) = .error .internal := by rfl
 
 /-! #### the two side conditions are needed, and what the code does without them -/
 
@@ -160,7 +160,7 @@ example : dictOfAssignments [("x", .int 1), ("y", .int 2), ("x", .int 3)] = [("x
 /-- an enum whose internal value is `None` (the suite has one: `EnumValue("NULL", None)`) puts `None` at a non-null
     position — accepted by the code, not conforming: `RegOK.enumNotNone` cannot be dropped from `variable_sound`. -/
 def regNoneEnum : Reg := Reg.ofTypes [("E", .enum [("NULL", .none)])]
-example : coerceValue regNoneEnum 2 (.nonNull (.named "E")) (.str "NULL" none none) = .ok .none := by rfl
+example : coerceValue regNoneEnum 2 (.nonNull (.named "E")) (.str "NULL") = .ok .none := by rfl
 example : ¬ Conforms regNoneEnum (.nonNull (.named "E")) .none := by
   intro h
   cases h with
